@@ -359,6 +359,7 @@ def _child_same(task):
 
     can = _start(task)
     items, todo = [], []
+    kept = []  # loaded copies, re-measured once the whole batch has been loaded
     for idx, spec in task["specs"]:
         spec = _tup(spec)
         ok, ann = _safe(build, spec)
@@ -395,6 +396,8 @@ def _child_same(task):
                 same_obj.append(r)
             else:
                 r["copy"] = enc(vector(rec))
+                if p == PICKLE_PROTOCOLS[-1]:
+                    kept.append((r, rec))
         # (c) copy / deepcopy
         for name, fn in (("copy", copy.copy), ("deepcopy", copy.deepcopy)):
             ok, rec = _safe(fn, ann)
@@ -412,6 +415,11 @@ def _child_same(task):
         for r in same_obj:
             r["copy"] = it["orig_after_loads"]
         it["mini_ok"] = can.mini_ok()
+    # loading LATER annotations must not change what an EARLIER loaded copy accepts
+    for r, rec in kept:
+        later = enc(vector(rec))
+        if later != r["copy"]:
+            r["copy_later"] = later
     return dict(items=items, fingerprint_end=can.full())
 
 
@@ -499,6 +507,7 @@ def _child_load(task):
 
     can = _start(task)
     items = []
+    kept = []
     for rec_in in task["items"]:
         it = dict(i=rec_in["i"], routes={})
         items.append(it)
@@ -514,7 +523,13 @@ def _child_load(task):
         for route, b in rec_in.get("blobs", {}).items():
             ok, rec = _safe(pickle.loads, base64.b64decode(b))
             it["routes"][route] = dict(copy=enc(vector(rec))) if ok else dict(load=rec)
+            if ok and route == f"pickle{PICKLE_PROTOCOLS[-1]}":
+                kept.append((it["routes"][route], rec))
         it["mini_ok"] = can.mini_ok()
+    for r, rec in kept:
+        later = enc(vector(rec))
+        if later != r["copy"]:
+            r["copy_later"] = later
     return dict(items=items, fingerprint_end=can.full())
 
 
@@ -746,6 +761,8 @@ def _job(job):
                     if orig_bad:
                         continue  # the "copy" is the original object: reported under side=original below
                 compare(spec, route, "same", "copy", ref, r["copy"], nt)
+                if "copy_later" in r:
+                    compare(spec, route, "same", "copy-after-later-loads", ref, r["copy_later"], nt)
             if orig_bad:
                 # failure path, cap reached: report without attribution to a single route
                 stats["unattributed_original_changes"] += 1
@@ -800,6 +817,8 @@ def _job(job):
                 fail(spec, route, "xproc", "copy", "load-error", f"could not be loaded in a fresh interpreter: {r['load']}", nts[it["i"]])
             else:
                 compare(spec, route, "xproc", "copy", ref, r["copy"], nts[it["i"]])
+                if "copy_later" in r:
+                    compare(spec, route, "xproc", "copy-after-later-loads", ref, r["copy_later"], nts[it["i"]])
         if not it["mini_ok"]:
             viols.append(_mk_violation(spec, "pickle-or-copy", "xproc", "bystander", "differs", "an unrelated annotation changed its acceptance after loading this one", batch=prefix(it["i"])))
     if l_out["fingerprint_end"] != fp:
